@@ -656,6 +656,9 @@ def oracle_c(ctx, rng, h, revs):
 def case(ctx):
     from vf.checks import _c35_hist as H
 
+    from vf import gen
+
+    gen._uniq[0] = 0  # content markers restart per case: a case replays alone exactly as it ran inside a shard
     rng = ctx.rng
     thorough = ctx.tier != "quick"
     fmt = rng.choice(FORMATS)
